@@ -463,6 +463,10 @@ func report(spec PropSpec, tier string, seed uint64, results []*JobRes, wall flo
 	if nviol > 0 {
 		return 1
 	}
+	if other["harness"] > 0 {
+		fmt.Printf("BROKEN: property=%s the harness itself misbehaved (%d report(s) of class 'harness', see the NOTE lines)\n", id, other["harness"])
+		return 2
+	}
 	if evals == 0 || (len(distinct) < 2 && !isReplay) {
 		fmt.Printf("BROKEN: property=%s the monitors observed nothing (evaluations=%d distinct=%d)\n", id, evals, len(distinct))
 		return 2
